@@ -14,16 +14,13 @@ Definition run_1902 (h g : list Z) : io :=
   [[bz (wf_rev f); wf_off f; wf_len f;
     match wf_fix f with Some (p, _) => p | None => -1 end;
     match wf_fix f with Some (_, k) => k | None => 0 end]].
-(* 1903: [sig] -> [BIT-POSITION; high-low; BIT-LENGTH; kind; width]  (fixed writer)
-   1906: the same with the writer before the fix *)
+(* 1903: [sig] -> [BIT-POSITION; high-low; BIT-LENGTH; kind; width] of a SIGNAL-INSTANCE (also inside switched/static PDUs)
+   1907: [sig] -> [BIT-POSITION; high-low; BIT-LENGTH] of the MULTIPLEXER/SWITCH element (fix C19_fibex_switch_position)
+   1909: sig ... -> [segment start; segment end] of a part holding these signals *)
 Definition fx_out (f : fx_field) : io := [[fx_pos f; bz (fx_hilo f); fx_len f; fx_kind f; fx_width f]].
 Definition run_1903 (g : list Z) : io := fx_out (fibex_emit (sig19 g)).
-Definition run_1906 (g : list Z) : io := fx_out (fibex_emit_with false (sig19 g)).
-(* 1907: [sig] -> [BIT-POSITION; high-low; BIT-LENGTH] of the MULTIPLEXER/SWITCH element (fixed writer: same numbers) *)
 Definition run_1907 (g : list Z) : io :=
   let f := fibex_emit (sig19 g) in [[fx_pos f; bz (fx_hilo f); fx_len f]].
-(* 1908: [pdu_start] | [sig] -> as 1903 for a signal instance inside a part's PDU ; 1909: sig ... -> [segment start; segment end] *)
-Definition run_1908 (h g : list Z) : io := fx_out (fibex_emit_in (nthz h 0) (sig19 g)).
 Definition run_1909 (sgs : io) : io := let r := seg_range (-1, -1) (map sig19 sgs) in [[fst r; snd r]].
 (* 1904: [opt] | [sig] -> [byte; bit; length; motorola; signed] *)
 Definition run_1904 (h g : list Z) : io :=
@@ -57,9 +54,7 @@ Definition run_c19 (cmd : Z) (a : io) : io :=
   | 1901, [g] => run_1901 g
   | 1902, [h; g] => run_1902 h g
   | 1903, [g] => run_1903 g
-  | 1906, [g] => run_1906 g
   | 1907, [g] => run_1907 g
-  | 1908, [h; g] => run_1908 h g
   | 1909, sgs => run_1909 sgs
   | 1904, [h; g] => run_1904 h g
   | 1905, [g] => run_1905 g
